@@ -532,4 +532,42 @@ theorem encOf_spec (g : Geo) (hg : WGeo g) (es : ES) (inv : ESInv g es) (buf : L
     simp only [hk]
     exact ⟨by rw [a1]; simp, ⟨inv.c0, inv.c1, a2⟩⟩
 
+/-! ## a reader over a data region made of whole blocks -/
+
+theorem flatten_len_const {α : Type} (n : Nat) : ∀ (l : List (List α)), (∀ b ∈ l, b.length = n) → l.flatten.length = l.length * n := by
+  intro l
+  induction l with
+  | nil => intro _; simp
+  | cons a l ih =>
+    intro h
+    rw [List.flatten_cons, List.length_append, h a (by simp), ih (fun b hb => h b (by simp [hb])), List.length_cons, Nat.succ_mul]
+    omega
+
+theorem splitBlocksZ_flatten (bsz : Nat) : ∀ (bs : List (List Byte)), (∀ b ∈ bs, b.length = bsz) →
+    splitBlocksZ bsz bs.length bs.flatten = bs := by
+  intro bs
+  induction bs with
+  | nil => intro _; rfl
+  | cons b bs ih =>
+    intro h
+    have hb := h b (by simp)
+    simp only [List.length_cons, splitBlocksZ, List.flatten_cons]
+    rw [List.take_left' hb, List.drop_left' hb, hb, Nat.sub_self, ih (fun c hc => h c (by simp [hc]))]
+    simp
+
+/-- over a data region that is the concatenation of whole blocks the generic ADPCM reader finds every block again: block k of
+    the stream is the decoder run on block k -/
+theorem adpcmReader_blocks (dec : List Byte → List Int) (ch ba spb : Nat) (hba : 0 < ba) (bs : List (List Byte))
+    (h : ∀ b ∈ bs, b.length = ba) :
+    (adpcmReader dec ch ba spb bs.flatten).frames = spb * bs.length ∧
+    ∀ k, k < bs.length → (adpcmReader dec ch ba spb bs.flatten).src k = fixLen (spb * ch) (dec (bs.getD k [])) := by
+  have hlen : bs.flatten.length = bs.length * ba := flatten_len_const ba bs h
+  have hnb : (if ba = 0 then 0 else if bs.flatten.length % ba ≠ 0 then bs.flatten.length / ba + 1 else bs.flatten.length / ba) = bs.length := by
+    rw [if_neg (by omega), hlen, Nat.mul_mod_left, Nat.mul_div_cancel _ hba]; simp
+  unfold adpcmReader
+  simp only [hnb, splitBlocksZ_flatten ba bs h]
+  refine ⟨trivial, ?_⟩
+  intro k hk
+  simp [hk]
+
 end Sf.AdpcmEnc.Proofs
